@@ -47,6 +47,9 @@ func c34Scenarios() []c34Scenario {
 		// written) against a relay that is already part of the stored evidence, and against a new one
 		{"stored-relay-again-vs-flush", []c34Thread{{"relay", 902}, {"flush", 0}}, 100000},
 		{"new-relay-vs-flush", []c34Thread{{"relay", 2}, {"flush", 0}}, 100000},
+		// an evidence cache with room for ONE session: a relay for the running session pushes the previous session's
+		// evidence out of the cache; a relay of that evidence sent again afterwards must still be recognised
+		{"stored-relay-again-vs-relay-of-another-session/cache-of-one", []c34Thread{{"relay-cur", 7}, {"relay", 902}}, 100000},
 	}
 }
 
@@ -88,7 +91,7 @@ func init() {
 		store := node.EvidenceStore
 		preload := false
 		for _, t := range sc.Threads {
-			if t.Kind == "seal" || t.Kind == "flush" {
+			if t.Kind == "seal" || t.Kind == "flush" || t.Kind == "relay-cur" {
 				preload = true
 			}
 		}
@@ -114,13 +117,21 @@ func init() {
 			root    string
 		}
 		outcomes := map[string]bool{}
+		var preHashes map[string]bool // relays answered before the threads start (they belong to the evidence too)
 		run := func(prefix []int) (sched.Exec, error) {
+			capacity := 100
+			if strings.Contains(sc.Name, "cache-of-one") {
+				capacity = 1
+			}
+			store.Cache = sdk.NewCache(capacity)
 			pc.ClearEvidence(store)
 			pc.ClearSessionCache(node.SessionStore)
 			if preload {
 				// a claim is only generated for evidence with at least the minimum number of proofs (5)
+				preHashes = map[string]bool{}
 				for e := 900; e < 905; e++ {
 					rl := r.relayFromArgs(map[string]string{"entropy": fmt.Sprint(e), "session": sessArg})
+					preHashes[hex.EncodeToString(rl.Proof.Hash())] = true
 					if _, err := pk.HandleRelay(ctx, rl); err != nil {
 						return sched.Exec{}, fmt.Errorf("preload relay rejected: %v", err)
 					}
@@ -131,8 +142,12 @@ func init() {
 			for i, t := range sc.Threads {
 				i, t := i, t
 				switch t.Kind {
-				case "relay":
-					rl := r.relayFromArgs(map[string]string{"entropy": fmt.Sprint(t.Entropy), "session": sessArg})
+				case "relay", "relay-cur":
+					sa := sessArg
+					if t.Kind == "relay-cur" {
+						sa = "cur"
+					}
+					rl := r.relayFromArgs(map[string]string{"entropy": fmt.Sprint(t.Entropy), "session": sa})
 					outs[i].hash = hex.EncodeToString(rl.Proof.Hash())
 					fns = append(fns, func() {
 						resp, err := pk.HandleRelay(ctx, rl)
@@ -230,6 +245,19 @@ func init() {
 					if seen[outs[i].hash] == 0 {
 						acc.viol("relays/answered-relay-not-recorded", desc()+fmt.Sprintf(": relay#%d was answered with a signed response but is not in the stored evidence (%d proofs)", t.Entropy, len(hashes)))
 					}
+				}
+			}
+			sealed := false
+			for i, t := range sc.Threads {
+				sealed = sealed || (t.Kind == "seal" && outs[i].ok)
+			}
+			for h := range preHashes {
+				if seen[h] == 0 && !sealed {
+					acc.viol("relays/answered-relay-not-recorded", desc()+fmt.Sprintf(": a relay answered before the threads started is no longer in the stored evidence (%d proofs)", len(hashes)))
+					break
+				}
+				if answered[h] > 0 {
+					acc.viol("relays/identical-relay-answered-twice", desc()+fmt.Sprintf(": proof %s.. had been answered before and was answered again", h[:8]))
 				}
 			}
 			for h, n := range answered {
